@@ -1,7 +1,7 @@
 CONSTANTS
   NameSet = {"a", "b"}
-  Depth = 2
-  MaxLinks = 0
+  Depth = 1
+  MaxLinks = 1
   MaxData = 1
   MaxOdd = 1
 SPECIFICATION Spec
